@@ -431,6 +431,370 @@ theorem derived_mass_per_height_changes (A δ a n : Rat) (pre post : List Rat) :
 example : (2 : Rat) * derivedArea 10 ([3] ++ (4 + 1) :: []) ≠ 2 * derivedArea 10 ([3] ++ 4 :: []) := by
   rw [derived_mass_per_height_changes]; norm_num [derivedArea]
 
+/-! ### the component as a state machine with its caches (`p.volume`, `derivedMustUpdate`):
+any history of queries, temperature changes, material swaps and dimension edits -/
+
+section MachineProps
+variable {T : Type}
+
+/-- the volume cache, when filled, holds area × height of the CURRENT state -/
+def Coherent (e : Env T) (s : CState T) : Prop :=
+  ∀ v, s.vol = some v → ∃ h a, e.height = some h ∧ s.areaAt e s.temp false = some a ∧ v = a * h
+
+theorem coherent_of_empty (e : Env T) (s : CState T) (h : s.vol = none) : Coherent e s := by
+  intro v hv; rw [h] at hv; cases hv
+
+theorem coherent_forget (e : Env T) (s : CState T) : Coherent e s.forget :=
+  coherent_of_empty e _ rfl
+
+private theorem getVolume_coherent (e : Env T) (s : CState T) (h : Coherent e s) :
+    Coherent e (s.getVolume e).1 := by
+  unfold CState.getVolume
+  cases hv : s.vol with
+  | some v => simpa [hv] using h
+  | none =>
+    cases hh : e.height with
+    | none => simpa [hv, hh] using h
+    | some ht =>
+      cases ha : s.areaAt e s.temp false with
+      | none => simpa [hv, hh, ha] using h
+      | some a =>
+        intro v hv'
+        refine ⟨ht, a, hh, ?_, ?_⟩
+        · exact ha
+        · simp at hv'; exact hv'.symm
+
+/-- **the cache invariant is kept by every public call** -/
+theorem step_coherent (e : Env T) (s : CState T) (op : Op T) (h : Coherent e s) :
+    Coherent e (step e s op).1 := by
+  cases op with
+  | setTemp t => exact coherent_of_empty e _ rfl
+  | setMat m => exact coherent_of_empty e _ rfl
+  | setDim key v cold =>
+    unfold step
+    simp only []
+    split
+    · exact h
+    · exact coherent_of_empty e _ rfl
+  | qVolume => exact getVolume_coherent e s h
+  | qMass => exact getVolume_coherent e s h
+  | setND nd => exact h
+  | qFactor => exact h
+  | qDim k c => exact h
+  | qDimTc k t => exact h
+  | qArea c => exact h
+  | qAreaTc t => exact h
+  | qND => exact h
+
+/-- hence after ANY history that starts with empty caches -/
+theorem run_coherent (e : Env T) (s : CState T) (ops : List (Op T)) (h : Coherent e s) :
+    Coherent e (run e s ops).1 := by
+  induction ops generalizing s with
+  | nil => exact h
+  | cons op rest ih => exact ih _ (step_coherent e s op h)
+
+private theorem getVolume_forget (e : Env T) (s : CState T) (h : Coherent e s) :
+    (s.getVolume e).2 = (s.forget.getVolume e).2 ∧ (s.getVolume e).1.forget = (s.forget.getVolume e).1.forget := by
+  unfold CState.getVolume
+  cases hv : s.vol with
+  | none =>
+    have : s.forget.vol = none := rfl
+    have ha : s.forget.areaAt e s.forget.temp false = s.areaAt e s.temp false := rfl
+    simp only [this, ha]
+    cases e.height <;> cases s.areaAt e s.temp false <;> simp [CState.forget]
+  | some v =>
+    obtain ⟨ht, a, hh, ha, hva⟩ := h v hv
+    have h0 : s.forget.vol = none := rfl
+    have ha' : s.forget.areaAt e s.forget.temp false = some a := ha
+    simp only [h0, hh, ha', hva]
+    simp [CState.forget]
+
+/-- **a call answers the same with warm caches as with all caches dropped**, and leaves the same state behind
+(up to caches) -/
+theorem step_forget (e : Env T) (s : CState T) (op : Op T) (h : Coherent e s) :
+    (step e s op).2 = (step e s.forget op).2 ∧ (step e s op).1.forget = (step e s.forget op).1.forget := by
+  cases op with
+  | setTemp t => exact ⟨rfl, rfl⟩
+  | setMat m => exact ⟨rfl, rfl⟩
+  | setDim key v cold =>
+    have hf : s.forget.factorAt e s.forget.temp = s.factorAt e s.temp := rfl
+    have hs : s.forget.shape = s.shape := rfl
+    unfold step
+    simp only [hf, hs]
+    split <;> exact ⟨rfl, rfl⟩
+  | qVolume =>
+    obtain ⟨h1, h2⟩ := getVolume_forget e s h
+    exact ⟨by simp only [step, h1], by simp only [step, h2]⟩
+  | qMass =>
+    obtain ⟨h1, h2⟩ := getVolume_forget e s h
+    have hn : s.forget.nd = s.nd := rfl
+    exact ⟨by simp only [step, h1, hn], by simp only [step, h2]⟩
+  | setND nd => exact ⟨rfl, rfl⟩
+  | qFactor => exact ⟨rfl, rfl⟩
+  | qDim k c => exact ⟨rfl, rfl⟩
+  | qDimTc k t => exact ⟨rfl, rfl⟩
+  | qArea c => exact ⟨rfl, rfl⟩
+  | qAreaTc t => exact ⟨rfl, rfl⟩
+  | qND => exact ⟨rfl, rfl⟩
+
+private theorem forget_forget (s : CState T) : s.forget.forget = s.forget := rfl
+
+private theorem runPure_forget (e : Env T) (s : CState T) (ops : List (Op T)) :
+    runPure e s.forget ops = runPure e s ops := by
+  cases ops with
+  | nil => rfl
+  | cons op rest => simp only [runPure, forget_forget]
+
+/-- **caches are transparent**: whatever the history (queries, temperature changes, material swaps, dimension
+edits, in any order), every call returns what it returns on a machine that keeps no cache at all, and the end
+states agree up to caches.  In particular nothing about a previous material or temperature is remembered. -/
+theorem run_eq_runPure (e : Env T) (s : CState T) (ops : List (Op T)) (h : Coherent e s) :
+    (run e s ops).2 = (runPure e s ops).2 ∧ (run e s ops).1.forget = (runPure e s ops).1 := by
+  induction ops generalizing s with
+  | nil => exact ⟨rfl, rfl⟩
+  | cons op rest ih =>
+    obtain ⟨h1, h2⟩ := step_forget e s op h
+    obtain ⟨i1, i2⟩ := ih (step e s op).1 (step_coherent e s op h)
+    have hp : runPure e (step e s op).1 rest = runPure e (step e s.forget op).1.forget rest := by
+      rw [← runPure_forget e (step e s op).1 rest, h2]
+    simp only [run, runPure]
+    rw [i1, i2, hp, h1]
+    exact ⟨rfl, rfl⟩
+
+/-- the component a constructor would build now from the current cold dimensions, temperatures and number
+densities with material `m` -/
+def fresh (m : Mat T) (s : CState T) : CState T := { s.forget with mat := m }
+
+/-- **a material swap forgets the old material**: after `setProperties(m)` — whatever was queried, cached or set
+before — every later history returns what it returns on a component freshly given material `m`. -/
+theorem swap_forgets (e : Env T) (s : CState T) (m : Mat T) (post : List (Op T)) (h : Coherent e s) :
+    (run e (step e s (.setMat m)).1 post).2 = (run e (fresh m s) post).2 := by
+  have hc1 : Coherent e (step e s (.setMat m)).1 := step_coherent e s _ h
+  have hc2 : Coherent e (fresh m s) := coherent_of_empty e _ rfl
+  rw [(run_eq_runPure e _ post hc1).1, (run_eq_runPure e _ post hc2).1,
+    ← runPure_forget e (step e s (.setMat m)).1 post, ← runPure_forget e (fresh m s) post]
+  rfl
+
+/-- after a swap the expansion factor is the CURRENT material's: 1 for a fluid/custom material (never raising),
+`thermalExpansionFactor .solid` of the new curve for a solid -/
+theorem swap_factor (e : Env T) (s : CState T) (m : Mat T) :
+    (step e (step e s (.setMat m)).1 .qFactor).2 =
+      (thermalExpansionFactor m.kind m.pct s.temp s.tin (e.same s.temp s.tin)).map (fun x => [x]) := rfl
+
+theorem swap_to_fluid_dims_fixed (e : Env T) (s : CState T) (m : Mat T) (hm : m.kind = .fluid) (key : String) :
+    (step e (step e s (.setMat m)).1 (.qDim key false)).2 = (step e s (.qDim key true)).2 := by
+  simp only [step, CState.dimAt, CState.clearLinkedCache, CState.factorAt, hm, thermalExpansionFactor]
+  cases coldOf s.cold key with
+  | none => rfl
+  | some q => by_cases hq : q = 0 <;> by_cases hk : key ∈ expDimsOf s.shape <;> simp [hq, hk]
+
+/-! #### every read path gives the same mass per unit height -/
+
+/-- **`getVolume()` is area × height of the current state, warm cache or not** -/
+theorem volume_eq_area_height (e : Env T) (s : CState T) (h : Coherent e s) (ht a : Rat)
+    (hh : e.height = some ht) (ha : s.areaAt e s.temp false = some a) :
+    (step e s .qVolume).2 = some [a * ht] := by
+  simp only [step, CState.getVolume]
+  cases hv : s.vol with
+  | none => simp [hh, ha]
+  | some v =>
+    obtain ⟨ht', a', hh', ha', hva⟩ := h v hv
+    rw [hh] at hh'; rw [ha] at ha'
+    cases hh'; cases ha'
+    simp [hva]
+
+/-- **`getMass()` is (Σ Nᵢ wᵢ) × area × height / symmetry factor of the current state, warm cache or not** -/
+theorem mass_eq_density_area_height (e : Env T) (s : CState T) (h : Coherent e s) (ht a : Rat)
+    (hh : e.height = some ht) (ha : s.areaAt e s.temp false = some a) :
+    (step e s .qMass).2 = some [massDens s.nd e.w * (a * ht / e.sym)] := by
+  simp only [step, CState.getVolume]
+  cases hv : s.vol with
+  | none => simp [hh, ha]
+  | some v =>
+    obtain ⟨ht', a', hh', ha', hva⟩ := h v hv
+    rw [hh] at hh'; rw [ha] at ha'
+    cases hh'; cases ha'
+    simp [hva]
+
+/-! #### histories of queries and temperature changes: the end state depends on the final temperature only -/
+
+/-- a history of queries and temperature changes only -/
+def ThermalOnly : List (Op T) → Prop
+  | [] => True
+  | .setMat _ :: _ => False
+  | .setDim _ _ _ :: _ => False
+  | .setND _ :: _ => False
+  | _ :: rest => ThermalOnly rest
+
+private theorem getVolume_ess (e : Env T) (s : CState T) :
+    (s.getVolume e).1.mat = s.mat ∧ (s.getVolume e).1.tin = s.tin ∧ (s.getVolume e).1.temp = s.temp ∧
+    (s.getVolume e).1.nd = s.nd ∧ (s.getVolume e).1.shape = s.shape ∧ (s.getVolume e).1.cold = s.cold := by
+  unfold CState.getVolume
+  cases s.vol <;> cases e.height <;> cases s.areaAt e s.temp false <;> simp
+
+/-- **whatever is queried in between**, a solid (or custom) material's component ends with its material, input
+temperature, shape and cold dimensions untouched, at the last temperature set, with every number density taken
+along the temperature path only -/
+theorem run_thermal (e : Env T) (s : CState T) (ops : List (Op T)) (hops : ThermalOnly ops)
+    (hl : s.mat.liquid = false) :
+    (run e s ops).1.mat = s.mat ∧ (run e s ops).1.tin = s.tin ∧ (run e s ops).1.shape = s.shape ∧
+    (run e s ops).1.cold = s.cold ∧ (run e s ops).1.temp = endOf s.temp (Op.temps ops) ∧
+    (run e s ops).1.nd = s.nd.map (ndAlong s.mat.pct s.temp (Op.temps ops)) := by
+  induction ops generalizing s with
+  | nil => simp [run, Op.temps, endOf, ndAlong]
+  | cons op rest ih =>
+    cases op with
+    | setMat m => exact absurd hops (by simp [ThermalOnly])
+    | setDim k v c => exact absurd hops (by simp [ThermalOnly])
+    | setND nd => exact absurd hops (by simp [ThermalOnly])
+    | setTemp t =>
+      have hr : ThermalOnly rest := by simpa [ThermalOnly] using hops
+      have := ih (step e s (.setTemp t)).1 hr (by simpa [step, CState.clearLinkedCache] using hl)
+      simp only [run]
+      obtain ⟨a, b, c, d, f, g⟩ := this
+      refine ⟨by rw [a]; rfl, by rw [b]; rfl, by rw [c]; rfl, by rw [d]; rfl, ?_, ?_⟩
+      · rw [f]; rfl
+      · rw [g]
+        simp [step, CState.clearLinkedCache, hl, Op.temps, ndAlong, List.map_map, Function.comp_def]
+    | qVolume =>
+      have hr : ThermalOnly rest := by simpa [ThermalOnly] using hops
+      obtain ⟨m1, m2, m3, m4, m5, m6⟩ := getVolume_ess e s
+      have := ih (step e s .qVolume).1 hr (by simpa [step, m1] using hl)
+      simp only [run]
+      simpa [step, m1, m2, m3, m4, m5, m6, Op.temps] using this
+    | qMass =>
+      have hr : ThermalOnly rest := by simpa [ThermalOnly] using hops
+      obtain ⟨m1, m2, m3, m4, m5, m6⟩ := getVolume_ess e s
+      have := ih (step e s .qMass).1 hr (by simpa [step, m1] using hl)
+      simp only [run]
+      simpa [step, m1, m2, m3, m4, m5, m6, Op.temps] using this
+    | qFactor => simpa [run, step, Op.temps, ThermalOnly] using ih s (by simpa [ThermalOnly] using hops) hl
+    | qDim k c => simpa [run, step, Op.temps, ThermalOnly] using ih s (by simpa [ThermalOnly] using hops) hl
+    | qDimTc k t => simpa [run, step, Op.temps, ThermalOnly] using ih s (by simpa [ThermalOnly] using hops) hl
+    | qArea c => simpa [run, step, Op.temps, ThermalOnly] using ih s (by simpa [ThermalOnly] using hops) hl
+    | qAreaTc t => simpa [run, step, Op.temps, ThermalOnly] using ih s (by simpa [ThermalOnly] using hops) hl
+    | qND => simpa [run, step, Op.temps, ThermalOnly] using ih s (by simpa [ThermalOnly] using hops) hl
+
+/-- **two histories of queries and temperature changes that end at the same temperature end in the same state**
+(material, dimensions, number densities), whatever was queried and cached on the way -/
+theorem end_state_final_temperature (e : Env T) (s : CState T) (ops1 ops2 : List (Op T))
+    (h1 : ThermalOnly ops1) (h2 : ThermalOnly ops2) (hl : s.mat.liquid = false)
+    (p1 : PosOn s.mat.pct (s.temp :: Op.temps ops1)) (p2 : PosOn s.mat.pct (s.temp :: Op.temps ops2))
+    (hend : endOf s.temp (Op.temps ops1) = endOf s.temp (Op.temps ops2)) :
+    (run e s ops1).1.forget = (run e s ops2).1.forget := by
+  obtain ⟨a1, b1, c1, d1, f1, g1⟩ := run_thermal e s ops1 h1 hl
+  obtain ⟨a2, b2, c2, d2, f2, g2⟩ := run_thermal e s ops2 h2 hl
+  have hnd : (run e s ops1).1.nd = (run e s ops2).1.nd := by
+    rw [g1, g2]
+    apply List.map_congr_left
+    intro n _
+    exact path_independent_pair _ _ _ _ _ p1 p2 hend
+  have ht : (run e s ops1).1.temp = (run e s ops2).1.temp := by rw [f1, f2, hend]
+  cases hx : (run e s ops1).1
+  cases hy : (run e s ops2).1
+  simp only [hx, hy] at a1 b1 c1 d1 a2 b2 c2 d2 hnd ht
+  simp only [CState.forget]
+  subst a1 b1 c1 d1 hnd ht
+  simp [a2, b2, c2, d2]
+
+/-- **mass per unit height is conserved along any history of queries and temperature changes**, for every shape
+class and for area-defined (unshaped) components, through the area read path; `volume_eq_area_height` and
+`mass_eq_density_area_height` carry it to `getVolume()` and `getMass()`. -/
+theorem history_mass_per_height (e : Env T) (s : CState T) (ops : List (Op T)) (hops : ThermalOnly ops)
+    (hl : s.mat.liquid = false) (hk : s.mat.kind = .solid)
+    (hpos : PosOn s.mat.pct (s.tin :: s.temp :: Op.temps ops)) (a a' : Rat)
+    (ha : s.areaAt e s.temp false = some a)
+    (ha' : (run e s ops).1.areaAt e (run e s ops).1.temp false = some a') (n : Rat) :
+    ndAlong s.mat.pct s.temp (Op.temps ops) n * a' = n * a := by
+  obtain ⟨a1, b1, c1, d1, f1, _⟩ := run_thermal e s ops hops hl
+  unfold CState.areaAt at ha ha'
+  rw [c1, d1, f1] at ha'
+  simp only [CState.factorAt, a1, b1, hk] at ha ha'
+  cases hs : s.shape with
+  | none =>
+    simp only [hs] at ha ha'
+    cases hc : coldOf s.cold "area" with
+    | none => simp [hc] at ha
+    | some ar =>
+      simp only [hc, Bool.false_eq_true, if_false, Option.map_eq_some_iff] at ha ha'
+      obtain ⟨f, hf, rfl⟩ := ha
+      obtain ⟨f', hf', rfl⟩ := ha'
+      rw [solid_factor_eq _ _ _ _ _ hf, solid_factor_eq _ _ _ _ _ hf']
+      exact mass_per_height_conserved_Unshaped s.mat.pct s.tin s.temp (Op.temps ops) ar n hpos
+  | some sh =>
+    simp only [hs, Bool.false_eq_true, if_false, Option.map_eq_some_iff] at ha ha'
+    obtain ⟨f, hf, rfl⟩ := ha
+    obtain ⟨f', hf', rfl⟩ := ha'
+    rw [solid_factor_eq _ _ _ _ _ hf, solid_factor_eq _ _ _ _ _ hf']
+    exact mass_per_height_conserved sh s.mat.pct s.tin s.temp (Op.temps ops) e.pi e.sqrt3 _ _ n hpos
+
+/-- **a hot value set on an expanding dimension reads back**, with the CURRENT material's factor, in the state
+machine (factor ≠ 0; the dimension exists) -/
+theorem machine_hot_set_readback (e : Env T) (s : CState T) (key : String) (v f q0 : Rat)
+    (hf : s.factorAt e s.temp = some f) (hf0 : f ≠ 0) (hk : coldOf s.cold key = some q0) :
+    (step e (step e s (.setDim key v false)).1 (.qDim key false)).2 = some [v] := by
+  have hcold : ∀ q, coldOf (s.cold.map (fun p => if p.1 = key then (p.1, q) else p)) key = some q := by
+    intro q
+    unfold coldOf at hk ⊢
+    generalize s.cold = l at hk
+    induction l with
+    | nil => simp at hk
+    | cons p l ih =>
+      by_cases hp : p.1 = key
+      · simp [hp]
+      · have : (List.find? (fun p => decide (p.1 = key)) l).map (·.2) = some q0 := by
+          simpa [List.find?, hp] using hk
+        simpa [List.find?, hp] using ih this
+  have hstep : (step e s (.setDim key v false)).1 =
+      ({ s with cold := s.cold.map (fun p =>
+          if p.1 = key then (p.1, if key ∈ expDimsOf s.shape then v / f else v) else p) } : CState T).clearLinkedCache e := by
+    by_cases he : key ∈ expDimsOf s.shape <;> simp [step, he, hf]
+  rw [hstep]
+  simp only [CState.factorAt] at hf
+  simp only [step, CState.dimAt, CState.clearLinkedCache, hcold, CState.factorAt, hf]
+  by_cases he : key ∈ expDimsOf s.shape
+  · by_cases hv : v / f = 0
+    · have : v = 0 := by
+        rcases div_eq_zero_iff.mp hv with h | h
+        · exact h
+        · exact absurd h hf0
+      simp [he, this]
+    · simp only [he, if_true, hv, false_or, Bool.false_eq_true, List.contains_iff_mem, not_true_eq_false, if_false,
+        Option.map_some]
+      congr 2
+      field_simp
+  · simp [he]
+
+end MachineProps
+
+/-! non-vacuity of the state-machine theorems: a Circle in a block of height 2, `pct t = t`, heated 10 → 20 → 5 with
+volume and mass queries in between -/
+private def exEnv : Env Rat :=
+  { same := fun a b => decide (a = b), pi := 3, sqrt3 := 2, sqrtF := fun _ => 0, height := some 2, sym := 1, w := [5] }
+private def exMat : Mat Rat := { kind := .solid, liquid := false, pct := fun t => t, rho := fun _ => 0 }
+private def exState : CState Rat :=
+  { mat := exMat, tin := 0, temp := 10, nd := [7], shape := some .Circle,
+    cold := [("od", 2), ("id", 1), ("mult", 3)], vol := none, stale := false }
+private def exOps : List (Op Rat) := [.qVolume, .setTemp 20, .qMass, .qArea false, .setTemp 5, .qVolume]
+
+example : (run exEnv exState exOps).2 = (runPure exEnv exState exOps).2 :=
+  (run_eq_runPure exEnv exState exOps (coherent_of_empty _ _ rfl)).1
+
+example : ∀ n : Rat, ndAlong exMat.pct 10 [20, 5] n * (9 / 4 * (21 / 20) ^ 2 * 3) = n * (9 / 4 * (11 / 10) ^ 2 * 3) := by
+  intro n
+  have h := history_mass_per_height exEnv exState exOps (by simp [exOps, ThermalOnly]) rfl rfl
+    (by intro x hx; simp [exOps, Op.temps, exState, exMat] at hx; rcases hx with rfl | rfl | rfl | rfl <;>
+        simp [exState, exMat] <;> norm_num)
+    (9 / 4 * (11 / 10) ^ 2 * 3) (9 / 4 * (21 / 20) ^ 2 * 3) (by decide +kernel) (by decide +kernel) n
+  simpa [exOps, Op.temps, exState] using h
+
+example : (step exEnv (step exEnv exState (.setDim "od" 5 false)).1 (.qDim "od" false)).2 = some [5] :=
+  machine_hot_set_readback exEnv exState "od" 5 (11 / 10) 2 (by decide +kernel) (by norm_num) (by decide +kernel)
+
+example : (run exEnv (step exEnv exState (.setMat { exMat with kind := .fluid })).1 [.qFactor]).2 = [some [1]] := by
+  rw [swap_forgets exEnv exState _ _ (coherent_of_empty _ _ rfl)]; decide +kernel
+
+
 /-! ### non-vacuity: the hypotheses of the theorems above are satisfiable -/
 
 example := mass_per_height_conserved .Helix (fun t : Rat => t) 0 10 [20, 5] 3 2 1 (fun _ => 1) 7
@@ -455,5 +819,992 @@ example : ∃ sys', setDimensionAt exSys 1 "od" 5 false true = some sys' ∧
   refine ⟨_, rfl, ?_⟩
   exact setDimension_retainLink_readback exSys _ 0 1 0 "od" "od" _ _ 5 2 (by decide) rfl
     (by simp [Comp.dim?]) rfl rfl (by norm_num) (by simp [Comp.dim?]) rfl
+
+/-! ### a block of linked components with caches: `clearLinkedCache`, `derivedMustUpdate` -/
+
+private theorem dim?_mem (c : Comp) (key : String) (d : Dim) (h : c.dim? key = some d) : ∃ p ∈ c.dims, p.2 = d := by
+  unfold Comp.dim? at h
+  cases hf : c.dims.find? (fun p => p.1 = key) with
+  | none => simp [hf] at h
+  | some p =>
+    simp [hf] at h
+    exact ⟨p, List.mem_of_find?_eq_some hf, h⟩
+
+/-- components that do not reach `i` resolve their dimensions identically in two systems that agree off `i` -/
+theorem getDimension_unreached (sys sys' : List Comp) (i : Nat) (hsame : ∀ j, j ≠ i → sys'[j]? = sys[j]?) :
+    ∀ F j key cold, reaches sys' F j i = false → getDimension sys' F j key cold = getDimension sys F j key cold := by
+  intro F
+  induction F with
+  | zero => intro j key cold _; rfl
+  | succ F ih =>
+    intro j key cold hr
+    unfold reaches at hr
+    simp only [Bool.or_eq_false_iff, beq_eq_false_iff_ne] at hr
+    obtain ⟨hji, hm⟩ := hr
+    simp only [getDimension]
+    rw [hsame j hji] at hm ⊢
+    cases hc : sys[j]? with
+    | none => rfl
+    | some c =>
+      simp only [hc] at hm ⊢
+      cases hd : c.dim? key with
+      | none => rfl
+      | some d =>
+        cases d with
+        | val q => rfl
+        | link k k' =>
+          simp only []
+          obtain ⟨p, hp, hp2⟩ := dim?_mem c key _ hd
+          have := (List.any_eq_false.mp hm) p hp
+          rw [hp2] at this
+          simp only [] at this
+          exact ih k k' cold (by simpa using this)
+
+
+section BlockProps
+variable {T : Type}
+
+def CohC (e : BEnv T) (comps : List (BComp T)) : Prop :=
+  ∀ j c v, comps[j]? = some c → c.vol = some v →
+    ∃ a, areaOf e (sysOf e comps) (comps.map (fun c => c.shape)) j = some a ∧ v = a * e.h
+
+def BCoherent (e : BEnv T) (b : BState T) : Prop := CohC e b.comps
+
+private theorem sysOf_clear (e : BEnv T) (comps : List (BComp T)) (P : Nat → BComp T → Prop) [∀ j c, Decidable (P j c)] :
+    sysOf e (comps.mapIdx (fun j c => if P j c then { c with vol := none } else c)) = sysOf e comps := by
+  unfold sysOf
+  apply List.ext_getElem?
+  intro j
+  simp only [List.getElem?_map, List.getElem?_mapIdx]
+  cases comps[j]? with
+  | none => rfl
+  | some c => simp only [Option.map_some]; split <;> rfl
+
+private theorem shapes_clear (comps : List (BComp T)) (P : Nat → BComp T → Prop) [∀ j c, Decidable (P j c)] :
+    (comps.mapIdx (fun j c => if P j c then { c with vol := none } else c)).map (fun c => c.shape)
+      = comps.map (fun c => c.shape) := by
+  apply List.ext_getElem?
+  intro j
+  simp only [List.getElem?_map, List.getElem?_mapIdx]
+  cases comps[j]? with
+  | none => rfl
+  | some c => simp only [Option.map_some]; split <;> rfl
+
+theorem sysOf_set_vol (e : BEnv T) (comps : List (BComp T)) (j : Nat) (c : BComp T) (x : Option Rat)
+    (hc : comps[j]? = some c) : sysOf e (comps.set j { c with vol := x }) = sysOf e comps := by
+  unfold sysOf
+  apply List.ext_getElem?
+  intro k
+  simp only [List.getElem?_map, List.getElem?_set]
+  by_cases hk : j = k
+  · subst hk
+    obtain ⟨hlt, heq⟩ := List.getElem?_eq_some_iff.mp hc
+    subst heq
+    simp [hlt, BComp.toComp]
+  · simp [hk]
+
+theorem shapes_set_vol (comps : List (BComp T)) (j : Nat) (c : BComp T) (x : Option Rat)
+    (hc : comps[j]? = some c) :
+    (comps.set j { c with vol := x }).map (fun c => c.shape) = comps.map (fun c => c.shape) := by
+  apply List.ext_getElem?
+  intro k
+  simp only [List.getElem?_map, List.getElem?_set]
+  by_cases hk : j = k
+  · subst hk
+    obtain ⟨hlt, heq⟩ := List.getElem?_eq_some_iff.mp hc
+    subst heq
+    simp [hlt]
+  · simp [hk]
+
+/-- `getVolume()` keeps the caches coherent -/
+theorem getVolume_bcoherent (e : BEnv T) (b : BState T) (i : Nat) (h : BCoherent e b) :
+    BCoherent e (b.getVolume e i).1 := by
+  unfold BState.getVolume
+  cases hc : b.comps[i]? with
+  | none => exact h
+  | some c =>
+    simp only []
+    cases hv : c.vol with
+    | some v => exact h
+    | none =>
+      simp only []
+      cases ha : b.area e i with
+      | none => exact h
+      | some a =>
+        simp only []
+        intro j c' v hj hv'
+        simp only [sysOf_set_vol e b.comps i c _ hc, shapes_set_vol b.comps i c _ hc]
+        simp only [List.getElem?_set] at hj
+        by_cases hij : i = j
+        · subst hij
+          obtain ⟨hlt, _⟩ := List.getElem?_eq_some_iff.mp hc
+          simp only [hlt, if_true, Option.some.injEq] at hj
+          subst hj
+          simp only [Option.some.injEq] at hv'
+          exact ⟨a, ha, hv'.symm⟩
+        · simp only [hij, if_false] at hj
+          exact h j c' v hj hv'
+
+private theorem areaOf_congr (e : BEnv T) (sys sys' : List Comp) (shapes : List (Option Shape)) (j : Nat)
+    (hj : sys'[j]? = sys[j]?)
+    (hd : ∀ k, getDimension sys' (sys'.length + 1) j k false = getDimension sys (sys.length + 1) j k false) :
+    areaOf e sys' shapes j = areaOf e sys shapes j := by
+  unfold areaOf
+  rw [hj]
+  simp only [hd]
+
+/-- clearing any set of volume caches keeps coherence, as long as every cache that SURVIVES is current -/
+private theorem clear_coh_of (e : BEnv T) (comps : List (BComp T)) (P : Nat → BComp T → Prop) [∀ j c, Decidable (P j c)]
+    (h : ∀ j c v, comps[j]? = some c → c.vol = some v → ¬ P j c →
+      ∃ a, areaOf e (sysOf e comps) (comps.map (fun c => c.shape)) j = some a ∧ v = a * e.h) :
+    CohC e (comps.mapIdx (fun j c => if P j c then { c with vol := none } else c)) := by
+  intro j c' v hj hv
+  rw [sysOf_clear, shapes_clear]
+  simp only [List.getElem?_mapIdx] at hj
+  cases hc : comps[j]? with
+  | none => simp [hc] at hj
+  | some c =>
+    simp only [hc, Option.map_some, Option.some.injEq] at hj
+    by_cases hp : P j c
+    · simp only [hp, if_true] at hj
+      subst hj
+      simp at hv
+    · simp only [hp, if_false] at hj
+      subst hj
+      exact h j c v hc hv hp
+
+private theorem reaches_self (sys : List Comp) (F i : Nat) : reaches sys (F + 1) i i = true := by
+  simp [reaches]
+
+private theorem sysOf_length (e : BEnv T) (comps : List (BComp T)) : (sysOf e comps).length = comps.length := by
+  simp [sysOf]
+
+/-- an edit of component `i` followed by a cache sweep of depth `D` keeps every surviving volume cache current,
+provided components the sweep does not reach resolve their dimensions as before -/
+private theorem edit_bcoherent_gen (e : BEnv T) (b : BState T) (i : Nat) (f : BComp T → BComp T)
+    (hf : ∀ c, (f c).shape = c.shape) (D : Nat)
+    (hres : ∀ j, reaches (sysOf e (b.modify i f).comps) (D + 1) j i = false → ∀ k,
+      getDimension (sysOf e (b.modify i f).comps) ((b.modify i f).comps.length + 1) j k false
+        = getDimension (sysOf e b.comps) (b.comps.length + 1) j k false)
+    (h : BCoherent e b) :
+    CohC e ((b.modify i f).comps.mapIdx (fun j c =>
+      if reaches (sysOf e (b.modify i f).comps) (D + 1) j i = true then { c with vol := none } else c)) := by
+  apply clear_coh_of
+  intro j c v hj hv hp
+  simp only [Bool.not_eq_true] at hp
+  have hji : j ≠ i := by
+    intro heq
+    subst heq
+    rw [reaches_self] at hp
+    cases hp
+  have hcomps : ∀ k, k ≠ i → (b.modify i f).comps[k]? = b.comps[k]? := by
+    intro k hk
+    unfold BState.modify
+    cases b.comps[i]? with
+    | none => rfl
+    | some ci => simp only [List.getElem?_set]; simp [Ne.symm hk]
+  have hshapes : (b.modify i f).comps.map (fun c => c.shape) = b.comps.map (fun c => c.shape) := by
+    unfold BState.modify
+    cases hci : b.comps[i]? with
+    | none => rfl
+    | some ci =>
+      simp only []
+      apply List.ext_getElem?
+      intro k
+      simp only [List.getElem?_map, List.getElem?_set]
+      by_cases hk : i = k
+      · subst hk
+        obtain ⟨hlt, heq⟩ := List.getElem?_eq_some_iff.mp hci
+        subst heq
+        simp [hlt, hf]
+      · simp [hk]
+  have hsys : (sysOf e (b.modify i f).comps)[j]? = (sysOf e b.comps)[j]? := by
+    simp only [sysOf, List.getElem?_map, hcomps j hji]
+  rw [hcomps j hji] at hj
+  obtain ⟨a, ha, hva⟩ := h j c v hj hv
+  refine ⟨a, ?_, hva⟩
+  rw [hshapes, ← ha]
+  apply areaOf_congr e _ _ _ j hsys
+  intro k
+  rw [sysOf_length, sysOf_length]
+  exact hres j hp k
+
+private theorem modify_sys_off (e : BEnv T) (b : BState T) (i : Nat) (f : BComp T → BComp T) :
+    ∀ k, k ≠ i → (sysOf e (b.modify i f).comps)[k]? = (sysOf e b.comps)[k]? := by
+  intro k hk
+  unfold BState.modify
+  cases b.comps[i]? with
+  | none => rfl
+  | some ci => simp only [sysOf, List.getElem?_map, List.getElem?_set]; simp [Ne.symm hk]
+
+private theorem modify_length (b : BState T) (i : Nat) (f : BComp T → BComp T) :
+    (b.modify i f).comps.length = b.comps.length := by
+  unfold BState.modify
+  cases b.comps[i]? with
+  | none => rfl
+  | some ci => simp
+
+/-- **an edit of component `i` followed by the TRANSITIVE cache sweep keeps every surviving volume cache current**
+(`setTemperature`, `setProperties`, `setDimension` of the code since fix b30c1b1), whatever the link structure -/
+theorem edit_bcoherent_transitive (e : BEnv T) (b : BState T) (i : Nat) (f : BComp T → BComp T)
+    (hf : ∀ c, (f c).shape = c.shape) (htr : e.transitive = true) (h : BCoherent e b) :
+    BCoherent e ((b.modify i f).clearLinkedCache e i) := by
+  unfold BState.clearLinkedCache BCoherent BState.sys
+  simp only [htr, if_true]
+  apply edit_bcoherent_gen e b i f hf _ _ h
+  intro j hp k
+  rw [← modify_length b i f]
+  exact getDimension_unreached _ _ i (modify_sys_off e b i f) _ j k false hp
+
+/-- no dimension is a link to a LINKED dimension (links are one level deep) -/
+def FlatLinks (sys : List Comp) : Prop :=
+  ∀ (j : Nat) (c : Comp) (key : String) (k : Nat) (k' : String) (ck : Comp) (k2 : Nat) (k3 : String),
+    sys[j]? = some c → c.dim? key = some (Dim.link k k') → sys[k]? = some ck →
+    ck.dim? k' ≠ some (Dim.link k2 k3)
+
+private theorem reaches_one (sys : List Comp) (k i : Nat) : reaches sys 1 k i = (k == i) := by
+  unfold reaches
+  cases sys[k]? with
+  | none => simp
+  | some c =>
+    simp only []
+    have hx : ∀ x : Bool, x = false → ((k == i) || x) = (k == i) := by intro x hx; simp [hx]
+    apply hx
+    apply List.any_eq_false.mpr
+    intro p _
+    cases p.2 <;> simp [reaches]
+
+/-- with one-level links, a component that neither is `i` nor links directly to `i` resolves its dimensions as
+before — at any fuel -/
+theorem getDimension_unreached_flat (sys sys' : List Comp) (i : Nat) (hsame : ∀ j, j ≠ i → sys'[j]? = sys[j]?)
+    (hflat : FlatLinks sys') (j : Nat) (hr : reaches sys' 2 j i = false) (F : Nat) (key : String) (cold : Bool) :
+    getDimension sys' F j key cold = getDimension sys F j key cold := by
+  cases F with
+  | zero => rfl
+  | succ F =>
+    unfold reaches at hr
+    simp only [Bool.or_eq_false_iff, beq_eq_false_iff_ne] at hr
+    obtain ⟨hji, hm⟩ := hr
+    simp only [getDimension]
+    have hcj := hsame j hji
+    cases hc : sys[j]? with
+    | none => rw [hcj, hc]
+    | some c =>
+      rw [hc] at hcj
+      rw [hcj] at hm ⊢
+      simp only [] at hm ⊢
+      cases hd : c.dim? key with
+      | none => rfl
+      | some d =>
+        cases d with
+        | val q => rfl
+        | link k k' =>
+          simp only []
+          obtain ⟨p, hp, hp2⟩ := dim?_mem c key _ hd
+          have hk := (List.any_eq_false.mp hm) p hp
+          rw [hp2] at hk
+          simp only [reaches_one] at hk
+          have hk : k ≠ i := by simpa using hk
+          cases F with
+          | zero => rfl
+          | succ F =>
+            simp only [getDimension]
+            have hck := hsame k hk
+            cases hc2 : sys[k]? with
+            | none => rw [hck, hc2]
+            | some ck =>
+              rw [hc2] at hck
+              rw [hck]
+              simp only []
+              cases hd2 : ck.dim? k' with
+              | none => rfl
+              | some d2 =>
+                cases d2 with
+                | val q => rfl
+                | link k2 k3 => exact absurd hd2 (hflat j c key k k' ck k2 k3 hcj hd hck)
+
+/-- **the code before fix b30c1b1** (`clearLinkedCache` reset the DIRECT dependents only): an edit of component `i`
+keeps every surviving volume cache current when links are one level deep.  With a link to a linked dimension it did
+not — the repaired defect `volume-stale-behind-link-to-link`, stated as `coded_sweep_misses_chain` below. -/
+theorem edit_bcoherent_coded_flat (e : BEnv T) (b : BState T) (i : Nat) (f : BComp T → BComp T)
+    (hf : ∀ c, (f c).shape = c.shape) (htr : e.transitive = false)
+    (hflat : FlatLinks (sysOf e (b.modify i f).comps)) (h : BCoherent e b) :
+    BCoherent e ((b.modify i f).clearLinkedCache e i) := by
+  unfold BState.clearLinkedCache BCoherent BState.sys
+  simp only [htr, Bool.false_eq_true, if_false]
+  apply edit_bcoherent_gen e b i f hf 1 _ h
+  intro j hp k
+  rw [← modify_length b i f]
+  exact getDimension_unreached_flat _ _ i (modify_sys_off e b i f) hflat j hp _ k false
+
+/-! the derived shape's reads fill sibling caches only through `getVolume` -/
+
+private theorem foldl_getVolume_bcoherent (e : BEnv T) (l : List Nat) :
+    ∀ acc : BState T × Option Rat, BCoherent e acc.1 →
+      BCoherent e (l.foldl (fun (acc : BState T × Option Rat) i =>
+        ((acc.1.getVolume e i).1,
+         match acc.2, (acc.1.getVolume e i).2 with
+         | some s, some v => some (s + v)
+         | _, _ => none)) acc).1 := by
+  induction l with
+  | nil => intro acc h; exact h
+  | cons i l ih =>
+    intro acc h
+    simp only [List.foldl_cons]
+    exact ih _ (getVolume_bcoherent e acc.1 i h)
+
+theorem sibVolumes_bcoherent (e : BEnv T) (b : BState T) (h : BCoherent e b) : BCoherent e (b.sibVolumes e).1 :=
+  foldl_getVolume_bcoherent e _ (b, some 0) h
+
+theorem deriveVolumeAndArea_bcoherent (e : BEnv T) (b : BState T) (h : BCoherent e b) :
+    BCoherent e (b.deriveVolumeAndArea e).1 := by
+  unfold BState.deriveVolumeAndArea
+  have hs := sibVolumes_bcoherent e b h
+  cases (b.sibVolumes e).2 with
+  | none => exact hs
+  | some sv =>
+    simp only []
+    split
+    · exact hs
+    · exact hs
+
+theorem derivedArea_bcoherent (e : BEnv T) (b : BState T) (h : BCoherent e b) :
+    BCoherent e (b.derivedArea e).1 := by
+  unfold BState.derivedArea
+  split
+  · exact deriveVolumeAndArea_bcoherent e b h
+  · exact h
+
+theorem derivedVolume_bcoherent (e : BEnv T) (b : BState T) (h : BCoherent e b) :
+    BCoherent e (b.derivedVolume e).1 := by
+  unfold BState.derivedVolume
+  have h1 : BCoherent e (if b.stale then { b with dVol := none, stale := false } else b) := by
+    split
+    · exact h
+    · exact h
+  generalize (if b.stale then ({ b with dVol := none, stale := false } : BState T) else b) = b1 at h1
+  simp only []
+  cases b1.dVol with
+  | some v => exact h1
+  | none =>
+    simp only []
+    have hd := deriveVolumeAndArea_bcoherent e b1 h1
+    cases (b1.deriveVolumeAndArea e).2 with
+    | none => exact hd
+    | some rem => exact hd
+
+/-- a further cache sweep never hurts -/
+theorem clearLinkedCache_bcoherent (e : BEnv T) (b : BState T) (i : Nat) (h : BCoherent e b) :
+    BCoherent e (b.clearLinkedCache e i) := by
+  unfold BState.clearLinkedCache BCoherent
+  apply clear_coh_of
+  intro j c v hj hv _
+  exact h j c v hj hv
+
+/-- **the code as it is (transitive sweep): every public call keeps every volume cache of the block current** —
+whatever the link structure (chains of any length) -/
+theorem bstep_bcoherent_transitive (e : BEnv T) (b : BState T) (op : BOp T) (htr : e.transitive = true)
+    (h : BCoherent e b) : BCoherent e (bstep e b op).1 := by
+  cases op with
+  | setTemp i t =>
+    simp only [bstep]
+    split
+    · exact h
+    · exact edit_bcoherent_transitive e b i _ (fun _ => rfl) htr h
+  | setMat i m =>
+    simp only [bstep]
+    split
+    · exact h
+    · exact edit_bcoherent_transitive e b i _ (fun _ => rfl) htr h
+  | setDim i key v cold =>
+    simp only [bstep]
+    split
+    · exact h
+    · split
+      · exact h
+      · exact edit_bcoherent_transitive e b i _ (fun _ => rfl) htr h
+  | setDimRetain i key v cold =>
+    simp only [bstep]
+    split
+    · exact h
+    · split
+      · split
+        · exact h
+        · split
+          · exact h
+          · exact clearLinkedCache_bcoherent e _ i (edit_bcoherent_transitive e b _ _ (fun _ => rfl) htr h)
+      · split
+        · exact h
+        · exact edit_bcoherent_transitive e b i _ (fun _ => rfl) htr h
+  | qDim i key cold => exact h
+  | qArea i => exact h
+  | qVolume i => exact getVolume_bcoherent e b i h
+  | qMass i =>
+    simp only [bstep]
+    split
+    · exact h
+    · exact getVolume_bcoherent e b i h
+  | qDerivedArea => exact derivedArea_bcoherent e b h
+  | qDerivedVolume => exact derivedVolume_bcoherent e b h
+
+/-- the code before fix b30c1b1: every public call keeps every volume cache of the block current while links are one
+level deep -/
+theorem bstep_bcoherent_coded_flat (e : BEnv T) (b : BState T) (op : BOp T) (htr : e.transitive = false)
+    (hflat : FlatLinks ((bstep e b op).1.sys e)) (h : BCoherent e b) : BCoherent e (bstep e b op).1 := by
+  have hsys : ∀ (b1 : BState T) (i : Nat), (b1.clearLinkedCache e i).sys e = sysOf e b1.comps := by
+    intro b1 i
+    unfold BState.clearLinkedCache BState.sys
+    exact sysOf_clear e b1.comps _
+  cases op with
+  | setTemp i t =>
+    revert hflat
+    simp only [bstep]
+    split
+    · intro _; exact h
+    · intro hflat
+      rw [hsys] at hflat
+      exact edit_bcoherent_coded_flat e b i _ (fun _ => rfl) htr hflat h
+  | setMat i m =>
+    revert hflat
+    simp only [bstep]
+    split
+    · intro _; exact h
+    · intro hflat
+      rw [hsys] at hflat
+      exact edit_bcoherent_coded_flat e b i _ (fun _ => rfl) htr hflat h
+  | setDim i key v cold =>
+    revert hflat
+    simp only [bstep]
+    split
+    · intro _; exact h
+    · split
+      · intro _; exact h
+      · intro hflat
+        rw [hsys] at hflat
+        exact edit_bcoherent_coded_flat e b i _ (fun _ => rfl) htr hflat h
+  | setDimRetain i key v cold =>
+    revert hflat
+    simp only [bstep]
+    split
+    · intro _; exact h
+    · split
+      · split
+        · intro _; exact h
+        · split
+          · intro _; exact h
+          · intro hflat
+            rw [hsys, BState.clearLinkedCache] at hflat
+            simp only [] at hflat
+            rw [sysOf_clear] at hflat
+            exact clearLinkedCache_bcoherent e _ i (edit_bcoherent_coded_flat e b _ _ (fun _ => rfl) htr hflat h)
+      · split
+        · intro _; exact h
+        · intro hflat
+          rw [hsys] at hflat
+          exact edit_bcoherent_coded_flat e b i _ (fun _ => rfl) htr hflat h
+  | qDim i key cold => exact h
+  | qArea i => exact h
+  | qVolume i => exact getVolume_bcoherent e b i h
+  | qMass i =>
+    simp only [bstep]
+    split
+    · exact h
+    · exact getVolume_bcoherent e b i h
+  | qDerivedArea => exact derivedArea_bcoherent e b h
+  | qDerivedVolume => exact derivedVolume_bcoherent e b h
+
+/-- links stay one level deep along the history -/
+def FlatAlong (e : BEnv T) : BState T → List (BOp T) → Prop
+  | _, [] => True
+  | b, op :: rest => FlatLinks ((bstep e b op).1.sys e) ∧ FlatAlong e (bstep e b op).1 rest
+
+/-- **any history, the code as it is (transitive sweep)**: all volume caches are current at the end -/
+theorem brun_bcoherent_transitive (e : BEnv T) (b : BState T) (ops : List (BOp T)) (htr : e.transitive = true)
+    (h : BCoherent e b) : BCoherent e (brun e b ops).1 := by
+  induction ops generalizing b with
+  | nil => exact h
+  | cons op rest ih => exact ih _ (bstep_bcoherent_transitive e b op htr h)
+
+/-- any history, the code before fix b30c1b1, one-level links: all volume caches are current at the end -/
+theorem brun_bcoherent_coded_flat (e : BEnv T) (b : BState T) (ops : List (BOp T)) (htr : e.transitive = false)
+    (hflat : FlatAlong e b ops) (h : BCoherent e b) : BCoherent e (brun e b ops).1 := by
+  induction ops generalizing b with
+  | nil => exact h
+  | cons op rest ih => exact ih _ hflat.2 (bstep_bcoherent_coded_flat e b op htr hflat.1 h)
+
+theorem bcoherent_of_empty (e : BEnv T) (b : BState T)
+    (h : ∀ (j : Nat) (c : BComp T), b.comps[j]? = some c → c.vol = none) :
+    BCoherent e b := by
+  intro j c v hj hv
+  rw [h j c hj] at hv
+  cases hv
+
+/-- **`getVolume()` of any component of a coherent block is its current area × height** (through links of any
+depth, warm cache or not) -/
+theorem bvolume_eq_area_height (e : BEnv T) (b : BState T) (i : Nat) (a : Rat) (h : BCoherent e b)
+    (ha : b.area e i = some a) : (bstep e b (.qVolume i)).2 = some [a * e.h] := by
+  simp only [bstep, BState.getVolume]
+  cases hc : b.comps[i]? with
+  | none =>
+    have : b.area e i = none := by
+      unfold BState.area areaOf BState.sys sysOf
+      simp [hc]
+    rw [this] at ha; cases ha
+  | some c =>
+    simp only []
+    cases hv : c.vol with
+    | some v =>
+      obtain ⟨a', ha', hva⟩ := h i c v hc hv
+      have : b.area e i = some a' := ha'
+      rw [this] at ha
+      cases ha
+      simp [hva]
+    | none => simp [ha]
+
+/-- decidable form of `BCoherent` (for concrete blocks) -/
+def cohB (e : BEnv T) (b : BState T) : Bool :=
+  (List.range b.comps.length).all (fun j =>
+    match b.comps[j]? with
+    | none => true
+    | some c =>
+      match c.vol with
+      | none => true
+      | some v =>
+        match b.area e j with
+        | none => false
+        | some a => decide (v = a * e.h))
+
+theorem cohB_of_bcoherent (e : BEnv T) (b : BState T) (h : BCoherent e b) : cohB e b = true := by
+  unfold cohB
+  apply List.all_eq_true.mpr
+  intro j _
+  cases hc : b.comps[j]? with
+  | none => rfl
+  | some c =>
+    simp only []
+    cases hv : c.vol with
+    | none => rfl
+    | some v =>
+      obtain ⟨a, ha, hva⟩ := h j c v hc hv
+      have : b.area e j = some a := ha
+      simp [this, hva]
+
+end BlockProps
+
+/-! the defect `volume-stale-behind-link-to-link` (repaired in /repo by b30c1b1), stated exactly: fuel ← bond (id → fuel.od) ← gas bond
+(id → bond.id, od → bond.od).  All three volumes cached; the fuel is heated. -/
+private def exBE (tr : Bool) : BEnv Rat :=
+  { same := fun a b => decide (a = b), pi := 3, sqrt3 := 2, sqrtF := fun x => x, h := 10, maxArea := 200, sym := 1,
+    transitive := tr }
+private def exSolid : Mat Rat := { kind := .solid, liquid := false, pct := fun t => t, rho := fun _ => 0 }
+private def exFluid : Mat Rat := { kind := .fluid, liquid := true, pct := fun _ => 0, rho := fun _ => 1 }
+private def exB : BState Rat :=
+  { comps := [
+      { mat := exSolid, tin := 0, temp := 0, nd := [1], w := [1], shape := some .Circle,
+        dims := [("od", .val 2), ("id", .val 0), ("mult", .val 1)], vol := none },
+      { mat := exFluid, tin := 0, temp := 0, nd := [1], w := [1], shape := some .Circle,
+        dims := [("od", .val 4), ("id", .link 0 "od"), ("mult", .val 1)], vol := none },
+      { mat := exFluid, tin := 0, temp := 0, nd := [1], w := [1], shape := some .Circle,
+        dims := [("od", .link 1 "od"), ("id", .link 1 "id"), ("mult", .val 1)], vol := none }],
+    stale := true, dArea := none, dVol := none }
+/-- the three volumes read once (caches warm) -/
+private def exB0 (tr : Bool) : BState Rat :=
+  (brun (exBE tr) exB [.qVolume 0, .qVolume 1, .qVolume 2]).1
+
+/-- **the repaired defect, stated exactly**: with warm caches (coherent), heating the fuel left the gas bond's cached
+volume stale under the direct-dependents sweep, and leaves it current under the transitive sweep -/
+theorem coded_sweep_misses_chain :
+    BCoherent (exBE false) (exB0 false) ∧
+    ¬ BCoherent (exBE false) (bstep (exBE false) (exB0 false) (.setTemp 0 100)).1 ∧
+    BCoherent (exBE true) (bstep (exBE true) (exB0 true) (.setTemp 0 100)).1 := by
+  have h0 : ∀ tr, BCoherent (exBE tr) exB := fun tr => bcoherent_of_empty _ _ (by
+    intro j c hj
+    match j, hj with
+    | 0, hj => simp [exB] at hj; rw [← hj]
+    | 1, hj => simp [exB] at hj; rw [← hj]
+    | 2, hj => simp [exB] at hj; rw [← hj]
+    | n + 3, hj => simp [exB] at hj)
+  have hw : ∀ tr, BCoherent (exBE tr) (exB0 tr) := fun tr =>
+    getVolume_bcoherent _ _ 2 (getVolume_bcoherent _ _ 1 (getVolume_bcoherent _ _ 0 (h0 tr)))
+  refine ⟨hw false, ?_, bstep_bcoherent_transitive _ _ _ rfl (hw true)⟩
+  intro h
+  have := cohB_of_bcoherent _ _ h
+  revert this
+  decide +kernel
+
+
+/-! ### the derived (left-over) shape's caches and `derivedMustUpdate` -/
+section DerivedProps
+variable {T : Type}
+
+/-- Σ of the current areas of the listed siblings (`none` when one of them raises) -/
+def sumAreasL (e : BEnv T) (b : BState T) : List Nat → Option Rat
+  | [] => some 0
+  | j :: l =>
+    match b.area e j, sumAreasL e b l with
+    | some a, some s => some (a + s)
+    | _, _ => none
+
+/-- `getVolume()` answers area × height (coherent caches), whatever the link depth -/
+theorem getVolume_out (e : BEnv T) (b : BState T) (i : Nat) (h : BCoherent e b) :
+    (b.getVolume e i).2 = (b.area e i).map (fun a => a * e.h) := by
+  unfold BState.getVolume
+  cases hc : b.comps[i]? with
+  | none =>
+    have : b.area e i = none := by
+      unfold BState.area areaOf BState.sys sysOf
+      simp [hc]
+    simp [this]
+  | some c =>
+    simp only []
+    cases hv : c.vol with
+    | some v =>
+      obtain ⟨a', ha', hva⟩ := h i c v hc hv
+      have : b.area e i = some a' := ha'
+      simp [this, hva]
+    | none =>
+      simp only []
+      cases b.area e i <;> rfl
+
+/-- `getVolume()` changes no area, flag or derived cache -/
+theorem getVolume_frame (e : BEnv T) (b : BState T) (i : Nat) :
+    (∀ j, (b.getVolume e i).1.area e j = b.area e j) ∧ (b.getVolume e i).1.stale = b.stale ∧
+    (b.getVolume e i).1.dArea = b.dArea ∧ (b.getVolume e i).1.dVol = b.dVol ∧
+    (b.getVolume e i).1.comps.length = b.comps.length := by
+  unfold BState.getVolume
+  cases hc : b.comps[i]? with
+  | none => exact ⟨fun _ => rfl, rfl, rfl, rfl, rfl⟩
+  | some c =>
+    simp only []
+    cases hv : c.vol with
+    | some v => exact ⟨fun _ => rfl, rfl, rfl, rfl, rfl⟩
+    | none =>
+      simp only []
+      cases ha : b.area e i with
+      | none => exact ⟨fun _ => rfl, rfl, rfl, rfl, rfl⟩
+      | some a =>
+        refine ⟨fun j => ?_, rfl, rfl, rfl, by simp⟩
+        unfold BState.area BState.sys
+        simp only [sysOf_set_vol e b.comps i c _ hc, shapes_set_vol b.comps i c _ hc]
+
+theorem sumAreasL_congr (e : BEnv T) (b b' : BState T) (h : ∀ j, b'.area e j = b.area e j) (l : List Nat) :
+    sumAreasL e b' l = sumAreasL e b l := by
+  induction l with
+  | nil => rfl
+  | cons j l ih => simp only [sumAreasL, h j, ih]
+
+/-- the step function of `sibVolumes` -/
+private def sibStep (e : BEnv T) (acc : BState T × Option Rat) (i : Nat) : BState T × Option Rat :=
+  ((acc.1.getVolume e i).1,
+   match acc.2, (acc.1.getVolume e i).2 with
+   | some s, some v => some (s + v)
+   | _, _ => none)
+
+private theorem foldl_sib (e : BEnv T) (l : List Nat) :
+    ∀ acc : BState T × Option Rat, BCoherent e acc.1 →
+      (l.foldl (sibStep e) acc).2 =
+        (match acc.2, sumAreasL e acc.1 l with
+         | some s, some S => some (s + S * e.h)
+         | _, _ => none) ∧
+      (∀ j, (l.foldl (sibStep e) acc).1.area e j = acc.1.area e j) ∧
+      (l.foldl (sibStep e) acc).1.stale = acc.1.stale ∧ (l.foldl (sibStep e) acc).1.dArea = acc.1.dArea ∧
+      (l.foldl (sibStep e) acc).1.dVol = acc.1.dVol ∧
+      (l.foldl (sibStep e) acc).1.comps.length = acc.1.comps.length := by
+  induction l with
+  | nil =>
+    intro ⟨b0, s0⟩ _
+    refine ⟨?_, fun _ => rfl, rfl, rfl, rfl, rfl⟩
+    cases s0 <;> simp [sumAreasL]
+  | cons i l ih =>
+    intro ⟨b0, s0⟩ h
+    generalize hacc : ((b0, s0) : BState T × Option Rat) = acc at h ⊢
+    have hb0 : acc.1 = b0 := by rw [← hacc]
+    have hs0 : acc.2 = s0 := by rw [← hacc]
+    obtain ⟨f1, f2, f3, f4, f5⟩ := getVolume_frame e acc.1 i
+    have hc' : BCoherent e (sibStep e acc i).1 := getVolume_bcoherent e acc.1 i h
+    obtain ⟨i1, i2, i3, i4, i5, i6⟩ := ih (sibStep e acc i) hc'
+    simp only [List.foldl_cons]
+    refine ⟨?_, fun j => by rw [i2 j]; exact f1 j, by rw [i3]; exact f2, by rw [i4]; exact f3,
+      by rw [i5]; exact f4, by rw [i6]; exact f5⟩
+    rw [i1]
+    have hs : sumAreasL e (sibStep e acc i).1 l = sumAreasL e acc.1 l := sumAreasL_congr e _ _ f1 l
+    rw [hs]
+    simp only [sibStep, getVolume_out e acc.1 i h, sumAreasL]
+    rw [hs0]
+    cases s0 <;> cases acc.1.area e i <;> cases sumAreasL e acc.1 l <;> simp
+    ring
+
+/-- **the sibling volumes the derived shape sums are the siblings' CURRENT areas × height** (coherent caches) -/
+theorem sibVolumes_spec (e : BEnv T) (b : BState T) (h : BCoherent e b) :
+    (b.sibVolumes e).2 = (sumAreasL e b (List.range b.comps.length)).map (fun S => S * e.h) ∧
+    (∀ j, (b.sibVolumes e).1.area e j = b.area e j) ∧ (b.sibVolumes e).1.stale = b.stale ∧
+    (b.sibVolumes e).1.dArea = b.dArea ∧ (b.sibVolumes e).1.dVol = b.dVol ∧
+    (b.sibVolumes e).1.comps.length = b.comps.length := by
+  have := foldl_sib e (List.range b.comps.length) (b, some 0) h
+  obtain ⟨a1, a2⟩ := this
+  refine ⟨?_, a2⟩
+  unfold BState.sibVolumes
+  change (List.foldl (sibStep e) (b, some 0) (List.range b.comps.length)).2 = _
+  rw [a1]
+  cases sumAreasL e b (List.range b.comps.length) <;> simp
+
+/-- while `derivedMustUpdate` is off, the derived shape's cached volume and area are what is left of the block
+(`maxArea` minus the siblings' CURRENT areas) -/
+def DCoherent (e : BEnv T) (b : BState T) : Prop :=
+  b.stale = false →
+    (∀ v, b.dVol = some v → ∃ S, sumAreasL e b (List.range b.comps.length) = some S ∧
+      v = e.maxArea * e.h - S * e.h) ∧
+    (∀ a, b.dArea = some a → ∃ S, sumAreasL e b (List.range b.comps.length) = some S ∧
+      a = (e.maxArea * e.h - S * e.h) / e.h)
+
+theorem dcoherent_of_stale (e : BEnv T) (b : BState T) (h : b.stale = true) : DCoherent e b := by
+  intro hs; rw [h] at hs; cases hs
+
+/-- anything that leaves areas, flag and derived caches alone keeps `DCoherent` -/
+theorem dcoherent_frame (e : BEnv T) (b b' : BState T) (ha : ∀ j, b'.area e j = b.area e j)
+    (hs : b'.stale = b.stale) (hA : b'.dArea = b.dArea) (hV : b'.dVol = b.dVol)
+    (hl : b'.comps.length = b.comps.length) (h : DCoherent e b) : DCoherent e b' := by
+  intro hst
+  rw [hs] at hst
+  obtain ⟨h1, h2⟩ := h hst
+  rw [hl, sumAreasL_congr e b b' ha, hA, hV]
+  exact ⟨h1, h2⟩
+
+theorem deriveVolumeAndArea_spec (e : BEnv T) (b : BState T) (h : BCoherent e b) :
+    ((b.deriveVolumeAndArea e).1.stale = b.stale ∧ (b.deriveVolumeAndArea e).1.dVol = b.dVol ∧
+     (∀ j, (b.deriveVolumeAndArea e).1.area e j = b.area e j) ∧
+     (b.deriveVolumeAndArea e).1.comps.length = b.comps.length) ∧
+    (∀ rem, (b.deriveVolumeAndArea e).2 = some rem →
+      ∃ S, sumAreasL e b (List.range b.comps.length) = some S ∧ rem = e.maxArea * e.h - S * e.h ∧
+        (b.deriveVolumeAndArea e).1.dArea = some (rem / e.h)) := by
+  obtain ⟨s1, s2, s3, s4, s5, s6⟩ := sibVolumes_spec e b h
+  unfold BState.deriveVolumeAndArea
+  cases hsv : (b.sibVolumes e).2 with
+  | none => exact ⟨⟨s3, s5, s2, s6⟩, fun rem hr => by cases hr⟩
+  | some sv =>
+    simp only []
+    rw [hsv] at s1
+    cases hS : sumAreasL e b (List.range b.comps.length) with
+    | none => rw [hS] at s1; cases s1
+    | some S =>
+      rw [hS] at s1
+      simp only [Option.map_some, Option.some.injEq] at s1
+      split
+      · exact ⟨⟨s3, s5, s2, s6⟩, fun rem hr => by cases hr⟩
+      · refine ⟨⟨s3, s5, s2, s6⟩, fun rem hr => ?_⟩
+        simp only [Option.some.injEq] at hr
+        exact ⟨S, rfl, by rw [← hr, s1], by rw [← hr]⟩
+
+/-- **`DerivedShape.getVolume()`**: when it does not raise, it returns `maxArea × height − Σ (current sibling
+areas) × height`, whatever was cached, and leaves flag and caches consistent -/
+theorem derivedVolume_spec (e : BEnv T) (b : BState T) (h : BCoherent e b) (hd : DCoherent e b) (v : Rat)
+    (hv : (b.derivedVolume e).2 = some v) :
+    DCoherent e (b.derivedVolume e).1 ∧
+    ∃ S, sumAreasL e b (List.range b.comps.length) = some S ∧ v = e.maxArea * e.h - S * e.h := by
+  unfold BState.derivedVolume at hv ⊢
+  -- the state after the flag handling
+  have key : ∀ b1 : BState T, BCoherent e b1 → (∀ j, b1.area e j = b.area e j) → b1.comps.length = b.comps.length →
+      b1.stale = false → (∀ v, b1.dVol = some v → ∃ S, sumAreasL e b (List.range b.comps.length) = some S ∧
+        v = e.maxArea * e.h - S * e.h) →
+      ∀ v, (match b1.dVol with
+            | some v => (b1, some v)
+            | none =>
+              match (b1.deriveVolumeAndArea e).2 with
+              | none => ((b1.deriveVolumeAndArea e).1, none)
+              | some rem => ({ (b1.deriveVolumeAndArea e).1 with dVol := some rem }, some rem)).2 = some v →
+        ((b1.dVol = none ∨ DCoherent e b1) → DCoherent e (match b1.dVol with
+            | some v => (b1, some v)
+            | none =>
+              match (b1.deriveVolumeAndArea e).2 with
+              | none => ((b1.deriveVolumeAndArea e).1, none)
+              | some rem => ({ (b1.deriveVolumeAndArea e).1 with dVol := some rem }, some rem)).1) ∧
+        ∃ S, sumAreasL e b (List.range b.comps.length) = some S ∧ v = e.maxArea * e.h - S * e.h := by
+    intro b1 hc1 ha1 hl1 hst1 hvol1 v hv
+    cases hdv : b1.dVol with
+    | some v1 =>
+      simp only [hdv] at hv ⊢
+      cases hv
+      refine ⟨fun hd1 => ?_, hvol1 v hdv⟩
+      rcases hd1 with h0 | h0
+      · cases h0
+      · exact h0
+    | none =>
+      simp only [hdv] at hv ⊢
+      obtain ⟨⟨d1, d2, d3, d4⟩, dspec⟩ := deriveVolumeAndArea_spec e b1 hc1
+      cases hrem : (b1.deriveVolumeAndArea e).2 with
+      | none => simp [hrem] at hv
+      | some rem =>
+        simp only [hrem] at hv ⊢
+        cases hv
+        obtain ⟨S, hS, hr, hA⟩ := dspec v hrem
+        have hS' : sumAreasL e b (List.range b.comps.length) = some S := by
+          rw [← hl1, sumAreasL_congr e b1 b (fun j => (ha1 j).symm)]; exact hS
+        refine ⟨fun _ => ?_, S, hS', hr⟩
+        intro _
+        have hareas : ∀ j, BState.area e { (b1.deriveVolumeAndArea e).1 with dVol := some v } j = b1.area e j := d3
+        have hlen : (b1.deriveVolumeAndArea e).1.comps.length = b1.comps.length := d4
+        refine ⟨fun v' hv' => ?_, fun a ha => ?_⟩
+        · simp only [Option.some.injEq] at hv'
+          refine ⟨S, ?_, by rw [← hv', hr]⟩
+          show sumAreasL e _ (List.range (b1.deriveVolumeAndArea e).1.comps.length) = some S
+          rw [hlen, sumAreasL_congr e b1 _ hareas]; exact hS
+        · have : (b1.deriveVolumeAndArea e).1.dArea = some a := ha
+          rw [hA] at this
+          simp only [Option.some.injEq] at this
+          refine ⟨S, ?_, by rw [← this, hr]⟩
+          show sumAreasL e _ (List.range (b1.deriveVolumeAndArea e).1.comps.length) = some S
+          rw [hlen, sumAreasL_congr e b1 _ hareas]; exact hS
+  by_cases hst : b.stale = true
+  · simp only [hst, if_true] at hv ⊢
+    have := key { b with dVol := none, stale := false } h (fun _ => rfl) rfl rfl (fun v hv => by cases hv) v hv
+    exact ⟨this.1 (Or.inl rfl), this.2⟩
+  · have hst' : b.stale = false := by simpa using hst
+    simp only [hst', Bool.false_eq_true, if_false] at hv ⊢
+    have := key b h (fun _ => rfl) rfl hst' (hd hst').1 v hv
+    exact ⟨this.1 (Or.inr hd), this.2⟩
+
+/-- **`DerivedShape.getComponentArea()`**: when it does not raise it returns (`maxArea × h − Σ current sibling areas
+× h) / h`, recomputed while `derivedMustUpdate` is set and cached otherwise -/
+theorem derivedArea_spec (e : BEnv T) (b : BState T) (h : BCoherent e b) (hd : DCoherent e b) :
+    DCoherent e (b.derivedArea e).1 ∧
+    ∀ a, (b.derivedArea e).2 = some a →
+      ∃ S, sumAreasL e b (List.range b.comps.length) = some S ∧ a = (e.maxArea * e.h - S * e.h) / e.h := by
+  unfold BState.derivedArea
+  obtain ⟨⟨d1, _, _, _⟩, dspec⟩ := deriveVolumeAndArea_spec e b h
+  by_cases hst : b.stale = true
+  · simp only [hst, if_true]
+    refine ⟨dcoherent_of_stale e _ (by rw [d1]; exact hst), fun a ha => ?_⟩
+    cases hrem : (b.deriveVolumeAndArea e).2 with
+    | none => rw [hrem] at ha; cases ha
+    | some rem =>
+      rw [hrem] at ha
+      obtain ⟨S, hS, hr, hA⟩ := dspec rem hrem
+      simp only [Option.bind_some] at ha
+      rw [hA] at ha
+      simp only [Option.some.injEq] at ha
+      exact ⟨S, hS, by rw [← ha, hr]⟩
+  · have hst' : b.stale = false := by simpa using hst
+    simp only [hst', Bool.false_eq_true, if_false]
+    exact ⟨hd, fun a ha => (hd hst').2 a ha⟩
+
+/-- **every public call keeps the derived shape's caches consistent with `derivedMustUpdate`** (given coherent
+sibling caches; a `DerivedShape.getVolume()` that raises is excluded: it leaves the flag reset over an old `p.area`) -/
+theorem bstep_dcoherent (e : BEnv T) (b : BState T) (op : BOp T) (h : BCoherent e b) (hd : DCoherent e b)
+    (hok : op = .qDerivedVolume → (bstep e b op).2 ≠ none) : DCoherent e (bstep e b op).1 := by
+  have hedit : ∀ (b1 : BState T) (i : Nat), DCoherent e (b1.clearLinkedCache e i) :=
+    fun b1 i => dcoherent_of_stale e _ rfl
+  have hget : ∀ i, DCoherent e (b.getVolume e i).1 := by
+    intro i
+    obtain ⟨f1, f2, f3, f4, f5⟩ := getVolume_frame e b i
+    exact dcoherent_frame e b _ f1 f2 f3 f4 f5 hd
+  cases op with
+  | setTemp i t =>
+    simp only [bstep]
+    split
+    · exact hd
+    · exact hedit _ i
+  | setMat i m =>
+    simp only [bstep]
+    split
+    · exact hd
+    · exact hedit _ i
+  | setDim i key v cold =>
+    simp only [bstep]
+    split
+    · exact hd
+    · split
+      · exact hd
+      · exact hedit _ i
+  | setDimRetain i key v cold =>
+    simp only [bstep]
+    split
+    · exact hd
+    · split
+      · split
+        · exact hd
+        · split
+          · exact hd
+          · exact hedit _ i
+      · split
+        · exact hd
+        · exact hedit _ i
+  | qDim i key cold => exact hd
+  | qArea i => exact hd
+  | qVolume i => exact hget i
+  | qMass i =>
+    simp only [bstep]
+    split
+    · exact hd
+    · exact hget i
+  | qDerivedArea => exact (derivedArea_spec e b h hd).1
+  | qDerivedVolume =>
+    have hne := hok rfl
+    simp only [bstep] at hne ⊢
+    cases hv : (b.derivedVolume e).2 with
+    | none => rw [hv] at hne; exact absurd rfl hne
+    | some v => exact (derivedVolume_spec e b h hd v hv).1
+
+/-- **the derived shape closes the block, through both read paths**: its area is `maxArea − Σ current sibling areas`
+and its volume that × height — whatever was queried, cached, heated, swapped or resized before (`h ≠ 0`) -/
+theorem derived_closes_block (e : BEnv T) (b : BState T) (h : BCoherent e b) (hd : DCoherent e b) (hh : e.h ≠ 0) :
+    (∀ a, (bstep e b .qDerivedArea).2 = some [a] →
+      ∃ S, sumAreasL e b (List.range b.comps.length) = some S ∧ a + S = e.maxArea) ∧
+    (∀ v, (bstep e b .qDerivedVolume).2 = some [v] →
+      ∃ S, sumAreasL e b (List.range b.comps.length) = some S ∧ v + S * e.h = e.maxArea * e.h) := by
+  constructor
+  · intro a ha
+    simp only [bstep] at ha
+    cases hv : (b.derivedArea e).2 with
+    | none => rw [hv] at ha; cases ha
+    | some a' =>
+      rw [hv] at ha
+      simp only [Option.map_some, Option.some.injEq, List.cons.injEq, and_true] at ha
+      obtain ⟨S, hS, hval⟩ := (derivedArea_spec e b h hd).2 a' hv
+      refine ⟨S, hS, ?_⟩
+      rw [← ha, hval]
+      field_simp
+      ring
+  · intro v hv'
+    simp only [bstep] at hv'
+    cases hv : (b.derivedVolume e).2 with
+    | none => rw [hv] at hv'; cases hv'
+    | some v' =>
+      rw [hv] at hv'
+      simp only [Option.map_some, Option.some.injEq, List.cons.injEq, and_true] at hv'
+      obtain ⟨S, hS, hval⟩ := (derivedVolume_spec e b h hd v' hv).2
+      exact ⟨S, hS, by rw [← hv', hval]; ring⟩
+
+
+/-- no `DerivedShape.getVolume()` along the history raises -/
+def DerivedOK (e : BEnv T) : BState T → List (BOp T) → Prop
+  | _, [] => True
+  | b, op :: rest => (op = .qDerivedVolume → (bstep e b op).2 ≠ none) ∧ DerivedOK e (bstep e b op).1 rest
+
+/-- **any history of public calls on a block (the code as it is)**: from a freshly built block, every component's
+cached volume is its current area × height and the derived shape's caches agree with `derivedMustUpdate` — hence
+(`bvolume_eq_area_height`, `derived_closes_block`) volumes follow areas and the derived shape closes the block
+whatever was queried, heated, swapped or resized before -/
+theorem brun_invariants_transitive (e : BEnv T) (b : BState T) (ops : List (BOp T)) (htr : e.transitive = true)
+    (h : BCoherent e b) (hd : DCoherent e b) (hok : DerivedOK e b ops) :
+    BCoherent e (brun e b ops).1 ∧ DCoherent e (brun e b ops).1 := by
+  induction ops generalizing b with
+  | nil => exact ⟨h, hd⟩
+  | cons op rest ih =>
+    exact ih _ (bstep_bcoherent_transitive e b op htr h) (bstep_dcoherent e b op h hd hok.1) hok.2
+
+end DerivedProps
+
+/-- non-vacuity: a freshly built block (flag set, no cache) satisfies both invariants, so `derived_closes_block`
+applies to every state any history reaches from it -/
+example := derived_closes_block (exBE true) exB
+  (bcoherent_of_empty _ _ (by
+    intro j c hj
+    match j, hj with
+    | 0, hj => simp [exB] at hj; rw [← hj]
+    | 1, hj => simp [exB] at hj; rw [← hj]
+    | 2, hj => simp [exB] at hj; rw [← hj]
+    | n + 3, hj => simp [exB] at hj))
+  (dcoherent_of_stale _ _ rfl) (by decide +kernel)
+
 
 end ArmiVerif.Thermal
